@@ -119,6 +119,7 @@ pub async fn run_conn_tls(
     addr: SocketAddr,
     plan: ConnPlan,
 ) -> ConnObs {
+    let plan = Arc::new(plan);
     let ms = Duration::from_millis;
     if plan.start_ms > 0 {
         let start = world.0.lock().unwrap().start;
@@ -143,7 +144,7 @@ pub async fn run_conn_tls(
     // A healthy client expects the handshake to make progress: the liveness
     // bound applies however many other handshakes are stalled.
     let hs = tokio::time::timeout(ms(crate::exec::LIVENESS_MS), connector.connect(name, end.clone())).await;
-    let mut tls = match hs {
+    let tls = match hs {
         Ok(Ok(t)) => t,
         Ok(Err(e)) => {
             obs.h2_err.iter_mut().for_each(|x| *x = Some(format!("tls handshake: {e}")));
@@ -157,8 +158,57 @@ pub async fn run_conn_tls(
             return obs;
         }
     };
-    let mut parser = RespParser::new();
-    let mut buf = vec![0u8; 16384];
+    // Read concurrently with writing, like any client that pipelines: a
+    // client that only reads after it has written everything deadlocks with
+    // the server once both pipes are full.
+    let (mut rd, mut wr) = tokio::io::split(tls);
+    struct Shared {
+        obs: ConnObs,
+        parser: RespParser,
+        done_reading: bool,
+    }
+    let shared = Arc::new(std::sync::Mutex::new(Shared { obs, parser: RespParser::new(), done_reading: false }));
+    let notify = Arc::new(tokio::sync::Notify::new());
+    let reader = {
+        let (shared, notify, world, plan) = (shared.clone(), notify.clone(), world.clone(), plan.clone());
+        tokio::spawn(async move {
+            let mut buf = vec![0u8; 16384];
+            loop {
+                let r = rd.read(&mut buf).await;
+                let mut g = shared.lock().unwrap();
+                let sh = &mut *g;
+                let stop = match r {
+                    Ok(0) => {
+                        sh.obs.eof = true;
+                        absorb(&[], true, &mut sh.parser, &mut sh.obs, &plan, &world, conn);
+                        true
+                    }
+                    Ok(n) => {
+                        absorb(&buf[..n], false, &mut sh.parser, &mut sh.obs, &plan, &world, conn);
+                        false
+                    }
+                    Err(e) => {
+                        // a TLS stream cut without close_notify reads as an
+                        // error; to the HTTP layer it is an EOF
+                        sh.obs.read_err = Some(e.kind());
+                        sh.obs.eof = true;
+                        absorb(&[], true, &mut sh.parser, &mut sh.obs, &plan, &world, conn);
+                        true
+                    }
+                };
+                if stop {
+                    sh.done_reading = true;
+                    drop(g);
+                    let q = world.log(Ev::ClientEof, conn, 0, 0, 0);
+                    shared.lock().unwrap().obs.eof_seq = Some(q);
+                    notify.notify_one();
+                    return;
+                }
+                drop(g);
+                notify.notify_one();
+            }
+        })
+    };
     let mut cur_req = 0usize;
     'steps: for step in &plan.steps {
         match step {
@@ -167,19 +217,22 @@ pub async fn run_conn_tls(
                 if let Some(j) = completes {
                     cur_req = j + 1;
                 }
-                if let Some(x) = obs.start_seq.get_mut(belongs) {
-                    if x.is_none() {
-                        *x = Some(world.n_events());
+                {
+                    let mut g = shared.lock().unwrap();
+                    if let Some(x) = g.obs.start_seq.get_mut(belongs) {
+                        if x.is_none() {
+                            *x = Some(world.n_events());
+                        }
                     }
                 }
-                if let Err(e) = tls.write_all(&data.0).await {
-                    obs.write_err = Some(e.kind());
+                if let Err(e) = wr.write_all(&data.0).await {
+                    shared.lock().unwrap().obs.write_err = Some(e.kind());
                     break 'steps;
                 }
-                let _ = tls.flush().await;
+                let _ = wr.flush().await;
                 if let Some(i) = completes {
                     let q = world.log(Ev::ReqSent, conn, plan.reqs[*i].nonce, data.0.len() as u64, 0);
-                    obs.sent_seq[*i] = Some(q);
+                    shared.lock().unwrap().obs.sent_seq[*i] = Some(q);
                 }
             }
             Step::Sleep { ms: d } => tokio::time::sleep(ms(*d)).await,
@@ -189,66 +242,80 @@ pub async fn run_conn_tls(
             }
             Step::AwaitResponses { count, max_ms } => {
                 let deadline = tokio::time::Instant::now() + ms(*max_ms);
-                while obs.finals.len() < *count && !obs.eof && obs.parse_err.is_none() && !obs.upgraded {
-                    match tokio::time::timeout_at(deadline, tls.read(&mut buf)).await {
-                        Err(_) => break,
-                        Ok(Ok(0)) => {
-                            obs.eof = true;
-                            absorb(&[], true, &mut parser, &mut obs, &plan, &world, conn);
+                loop {
+                    {
+                        let g = shared.lock().unwrap();
+                        if g.obs.finals.len() >= *count || g.done_reading || g.obs.parse_err.is_some() || g.obs.upgraded {
+                            break;
                         }
-                        Ok(Ok(n)) => absorb(&buf[..n], false, &mut parser, &mut obs, &plan, &world, conn),
-                        Ok(Err(e)) => {
-                            // a TLS stream cut without close_notify reads as
-                            // an error; to the HTTP layer it is an EOF
-                            obs.read_err = Some(e.kind());
-                            obs.eof = true;
-                            absorb(&[], true, &mut parser, &mut obs, &plan, &world, conn);
+                    }
+                    tokio::select! {
+                        _ = notify.notified() => {}
+                        _ = tokio::time::sleep_until(deadline) => { break; }
+                    }
+                }
+            }
+            Step::AwaitRespBytes { n, max_ms } => {
+                let deadline = tokio::time::Instant::now() + ms(*max_ms);
+                loop {
+                    {
+                        let g = shared.lock().unwrap();
+                        if g.obs.rx_bytes >= *n || g.done_reading {
+                            break;
                         }
+                    }
+                    tokio::select! {
+                        _ = notify.notified() => {}
+                        _ = tokio::time::sleep_until(deadline) => { break; }
                     }
                 }
             }
             Step::HalfClose => {
                 // close_notify + FIN; keep reading
                 let q = world.n_events();
-                let _ = tls.shutdown().await;
-                if obs.left == Left::No {
-                    obs.left = Left::HalfClose;
-                    obs.left_seq = Some(q);
+                let _ = tokio::time::timeout(ms(5_000), wr.shutdown()).await;
+                let mut g = shared.lock().unwrap();
+                if g.obs.left == Left::No {
+                    g.obs.left = Left::HalfClose;
+                    g.obs.left_seq = Some(q);
                 }
             }
             Step::AwaitEof { max_ms } => {
                 let deadline = tokio::time::Instant::now() + ms(*max_ms);
-                while !obs.eof {
-                    match tokio::time::timeout_at(deadline, tls.read(&mut buf)).await {
-                        Err(_) => break,
-                        Ok(Ok(0)) | Ok(Err(_)) => {
-                            obs.eof = true;
-                            obs.eof_seq = Some(world.log(Ev::ClientEof, conn, 0, 0, 0));
-                            absorb(&[], true, &mut parser, &mut obs, &plan, &world, conn);
-                        }
-                        Ok(Ok(n)) => absorb(&buf[..n], false, &mut parser, &mut obs, &plan, &world, conn),
+                loop {
+                    if shared.lock().unwrap().done_reading {
+                        break;
+                    }
+                    tokio::select! {
+                        _ = notify.notified() => {}
+                        _ = tokio::time::sleep_until(deadline) => { break; }
                     }
                 }
             }
             Step::Close | Step::Reset => {
                 let q = world.n_events();
+                let mut g = shared.lock().unwrap();
                 if matches!(step, Step::Reset) {
                     end.reset();
-                    obs.left = Left::Reset;
+                    g.obs.left = Left::Reset;
                 } else {
                     end.close();
-                    obs.left = Left::Close;
+                    g.obs.left = Left::Close;
                 }
-                obs.left_seq = Some(q);
+                g.obs.left_seq = Some(q);
                 break 'steps;
             }
-            _ => {}
         }
     }
     if !end.has_left() {
-        let _ = tokio::time::timeout(ms(1_000), tls.shutdown()).await;
+        let _ = tokio::time::timeout(ms(1_000), wr.shutdown()).await;
+    }
+    reader.abort();
+    let _ = reader.await;
+    if !end.has_left() {
         end.close_orderly();
     }
+    let mut obs = shared.lock().unwrap().obs.clone();
     for k in 0..obs.by_req.len() {
         obs.by_req[k] = obs.finals.get(k).cloned();
     }
